@@ -8,6 +8,7 @@ import RsMatterVerif.Lemmas.CodecQr
 import RsMatterVerif.Lemmas.CodecCheckIn
 import RsMatterVerif.Lemmas.CodecBleAdv
 import RsMatterVerif.Lemmas.CodecDerRead -- D16d
+import RsMatterVerif.Lemmas.CodecCmsCd -- D16d
 /-!
 # C17 — headers, onboarding payloads and discovery records decode what was encoded
 
@@ -412,5 +413,36 @@ theorem ecdsa_der_roundtrip (r s : List Nat) (hr : Canon 32 r) (hs : Canon 32 s)
   ecdsaDerToRaw_encSig hr hs
 example : Codec.Der.Canon 32 [0x43, 0xa6, 0x3f] ∧ Codec.Der.Canon 32 [] ∧ Codec.Der.Canon 32 (List.replicate 32 0xff) := by
   refine ⟨⟨by decide, by decide, by decide⟩, ⟨by decide, by decide, by decide⟩, ⟨by decide, by decide, by decide⟩⟩
+
+open Codec.Der in
+/-- **`CmsSignedData::parse` (`attest/cd.rs`) is total and returns sub-slices of the message**: on arbitrary
+bytes the model never panics and never runs out of fuel; when it succeeds, `signer_key_id` (exactly 20 bytes)
+and `cd_content` are the ranges `[kidOff, kidOff + 20)` and `[cdOff, cdOff + |cd|)` of the message, and the
+raw signature has 64 bytes. (`ObjectIdentifier` / `u8` decoding of the `der` crate enter by their acceptance
+condition only, see `Model/Codec/CmsCd.lean`.) -/
+theorem cms_parse_total_and_within (msg : List Nat) :
+    Safe (cmsParse msg) ∧
+    ∀ c, cmsParse msg = .ok c →
+      c.kidOff + c.kid.length ≤ msg.length ∧ c.kid = (msg.drop c.kidOff).take c.kid.length ∧
+      c.cdOff + c.cd.length ≤ msg.length ∧ c.cd = (msg.drop c.cdOff).take c.cd.length ∧
+      c.kid.length = 20 ∧ c.sig.length = 64 := by
+  obtain ⟨hs, hq⟩ := cmsParse_post msg
+  refine ⟨hs, fun c hc => ?_⟩
+  obtain ⟨⟨a1, a2⟩, ⟨b1, b2⟩, h3, h4⟩ := hq c hc
+  exact ⟨a1, a2, b1, b2, h3, h4⟩
+set_option maxRecDepth 100000 in
+/-- non-vacuity (a test): the model encoder's output is parsed, with the fields that were encoded -/
+example : (match Codec.Der.cmsParse (Codec.Der.encCms [0x15, 0x18] (List.replicate 20 7) [5] [6]) with
+    | .ok c => c.kid == List.replicate 20 7 && c.kidOff == 63 && c.cd == [0x15, 0x18] && c.cdOff == 52 &&
+        c.sig == List.replicate 31 0 ++ [5] ++ List.replicate 31 0 ++ [6]
+    | .error _ => false) = true := by decide
+
+/-- the full round-trip statement for the CMS envelope (NOT proved; the differential stream `cd` compares the
+model with `CmsSignedData::parse` on every `cms` op, and the oracle checks the round trip on the implementation) -/
+def cms_parse_encode_full : Prop :=
+  ∀ (content kid r s : List Nat), kid.length = 20 → Codec.Der.Canon 32 r → Codec.Der.Canon 32 s →
+    (∀ b ∈ content ++ kid, b < 256) → (Codec.Der.encCms content kid r s).length ≤ Codec.Der.MAX_LEN →
+    ∃ c, Codec.Der.cmsParse (Codec.Der.encCms content kid r s) = .ok c ∧ c.kid = kid ∧ c.cd = content ∧
+      c.sig = Codec.Der.padLeft 32 r ++ Codec.Der.padLeft 32 s
 
 end C17
